@@ -12,6 +12,7 @@ claim about a case, every evaluation that respects the bound must give that verd
 Permutation behaviour of the exact signs is in `Lemmas/DetBridge` and re-exported below.
 -/
 import DelaunayModel.Model.Pred
+import DelaunayModel.Lemmas.DetBridge
 namespace DM.C12
 
 open DM
@@ -65,6 +66,24 @@ theorem expected_is_sign (tol eps d s : Int) (h : expected tol eps d = some s) :
       simp [sgn] at *
       omega
     · simp at h
+
+/-- exact orientation flips sign under a transposition of two simplex vertices -/
+theorem orient_transposition {D : Nat} {s : List IPt} (hl : s.length = D + 1)
+    (hs : ∀ p ∈ s, p.length = D) {i j : Nat} (hi : i < D + 1) (hj : j < D + 1) (hij : i ≠ j) :
+    orientSign (swapAt s i j) = - orientSign s :=
+  orientSign_swap hl hs hi hj hij
+
+/-- exact orientation changes at most by sign under any reordering of the simplex vertices -/
+theorem orient_perm {D : Nat} {s s' : List IPt} (hl : s.length = D + 1)
+    (hs : ∀ p ∈ s, p.length = D) (hp : s.Perm s') :
+    orientSign s' = orientSign s ∨ orientSign s' = - orientSign s :=
+  orientSign_perm hl hs hp
+
+/-- the exact in-sphere sign is invariant under every reordering of the simplex vertices -/
+theorem insphere_perm_invariant {D : Nat} {s s' : List IPt} {q : IPt} (hl : s.length = D + 1)
+    (hs : ∀ p ∈ s, p.length = D) (hq : q.length = D) (hp : s.Perm s') :
+    insphereSign s' q = insphereSign s q :=
+  insphereSign_perm hl hs hq hp
 
 /-- non-vacuity: a concrete well-separated configuration (2-D, unit right triangle, query (1,1)
 scaled by 4: exact in-sphere determinant ≠ 0) on which the oracle commits -/
